@@ -184,16 +184,33 @@ func TestVerifRobustSource(t *testing.T) {
 		n++
 		src := string(rbBytes(c))
 		out := map[string]interface{}{"cid": c.CID}
+		var parsed *ast.Module
 		out["compact"] = rbMeasure(10*time.Second, func() (bool, string) {
 			toks, err := parser.NewLexer(src).Tokenize()
 			if err != nil {
 				return false, "lex: " + err.Error()
 			}
-			if _, err := parser.NewParser(toks).Parse(); err != nil {
+			m, err := parser.NewParser(toks).Parse()
+			if err != nil {
 				return false, "parse: " + err.Error()
 			}
+			parsed = m
 			return true, ""
 		})
+		if parsed != nil {
+			// what the product does next with an accepted source: every route is compiled
+			out["compile"] = rbMeasure(10*time.Second, func() (bool, string) {
+				c := compiler.NewCompilerWithOptLevel(compiler.OptBasic)
+				for _, it := range parsed.Items {
+					if route, ok := it.(*ast.Route); ok {
+						if _, err := c.CompileRoute(route); err != nil {
+							return false, "compile: " + err.Error()
+						}
+					}
+				}
+				return true, ""
+			})
+		}
 		out["expanded"] = rbMeasure(10*time.Second, func() (bool, string) {
 			toks, err := parser.NewExpandedLexer(src).Tokenize()
 			if err != nil {
